@@ -4,6 +4,18 @@ import json
 ALL = [f'C{i:02d}' for i in range(1, 21)]
 
 CHECKS = {
+ 'C02': dict(
+  category='model_checking',
+  text='spec/KfacConfig.tla enumerates the configuration lattice with the constructor\'s acceptance rule (TLC; every tuple in a sample is replayed into the real constructor on pretended ranks); for valid distributed configurations (stratified over W, k, method, prediv, colocate; bucket capacity classes, symmetry, heuristics) TLC-generated behaviours of the reference machine spec/KfacRef.tla (strict iteration discipline, multi-step, F != I, accumulation, eval passes) are executed by the real KFACPreconditioner on simdist; per step every rank\'s gradients must equal the reference term interpreted over the union batch (refinement to KfacRef at step boundaries), be bit-identical across ranks and across 3 scheduling policies, equal a REAL single-process run on the union batch (5e-4), with no in-flight buffer modification and no communication monitor.',
+  ref='DESIGN.md 4.5, 5 (C02)',
+  note='W in {2,4} quick (up to 8 thorough); sampled real-valued data; union-run arrangement: loss sum / local batch size, driver-side gradient averaging.',
+  technique='TLA+ specs (KfacConfig.tla lattice, KfacRef.tla reference) + TLC; reference behaviours executed on a simulated world and compared with interpreted terms, across ranks, schedules and a real union-batch run'),
+ 'C08': dict(
+  category='model_checking',
+  text='spec/Bucket.tla (communicator on a 2x2 world with distinct equal-size row/column groups; bucket keyed by group and dtype, python-dict flush order) with ExactlyOnce / CapRespected / NothingPending / ReducedInRequestedGroup / OneDtypePerWireOp / WireMatches model-checked by TLC over all programs of <=3 (4) calls and simulated to 6 (7) calls for capacities below one tensor, between and above all; the pinned behaviours (key by size, mixed dtypes) are constants of the spec and TLC produces their counterexamples; every emitted program is executed by a real TorchDistributedCommunicator per rank on simdist (2 schedules) and unbucketed in a twin world: value, shape, dtype of every future, bytes on the wire, capacity, rejection of non-square symmetric tensors, and the wire sequence vs the spec.',
+  ref='DESIGN.md 4.2, 5 (C08)',
+  note='Tensor contents are position/id/rank revealing and exactly representable; 4 ranks only.',
+  technique='TLA+ spec (Bucket.tla) + TLC program enumeration; each program executed against a real communicator and an unbucketed twin'),
  'C01': dict(
   category='model_checking',
   text='spec/KfacRef.tla determines for every step of every history which factor versions, which damping (refresh-time vs use-time) and which clip scale enter the step; TLC-enumerated behaviours are replayed into the real KFACPreconditioner over a lattice of layer types (linear, conv with rectangular kernel/stride/padding, N-d inputs, bias on/off) x methods (inverse, eigen, pre-divided eigen) x parameter/factor/inverse dtypes, and for every registered layer at every step the final gradient is compared with nu times the float64 solution of the defining Kronecker system (factors PSD for eigen) and the residual of that system is evaluated for the implementation\'s own V.',
